@@ -193,6 +193,10 @@ spawnphase(struct stageinfo *phase, int *fd, char *input, char *output, bool las
 	ret = spawn(&phase->pid, &phase->cmd, &actions);
 	if (ret)
 		goto err2;
+	/* the new stage has its own copy of the previous stage's read end */
+	if (*fd != -1)
+		close(*fd);
+	*fd = -1;
 	if (!last) {
 		*fd = pipefd[0];
 		close(pipefd[1]);
